@@ -1,6 +1,6 @@
-(* C15 - proofs about the life time of the wheel directory (model/CliFlowC15.v), first for an
-   arbitrary flow, then instantiated with the facts T1 generated from /repo (gen/C15Consts.v):
-   cli_flow (req_compile/cmdline.py compile_main), bzl_flow (private/compiler.py). *)
+(* C15 - proofs about the life time of the wheel directory and the exit kinds (model/CliFlowC15.v),
+   first for an arbitrary flow, then instantiated with the facts T1 generated from /repo
+   (gen/C15Consts.v): cli_flow (req_compile/cmdline.py compile_main), bzl_flow (private/compiler.py). *)
 From Coq Require Import List NArith Bool.
 From RC Require Import model.CliTypesC15 gen.C15Consts model.CliFlowC15.
 Import ListNotations.
@@ -13,8 +13,8 @@ Proof.
   destruct it as [s ou|body hs fin].
   - destruct (ou && negb user); auto. destruct (sc s); auto.
   - replace (if fin && del then true else true) with true by (destruct (fin && del); reflexivity).
-    destruct (first_failure sc body); auto.
-    destruct (find_handler hs e) as [[n|e']|]; reflexivity.
+    destruct (body_raise sc body) as [[e|n]|]; auto.
+    destruct (apply_handlers hs e); reflexivity.
 Qed.
 
 (* the guard is false: nothing removes the directory, on any path through any item list *)
@@ -24,8 +24,8 @@ Proof.
   revert removed. induction items as [|it r IH]; intro removed; cbn; auto.
   destruct it as [s ou|body hs fin].
   - destruct (ou && negb user); auto. destruct (sc s); auto.
-  - rewrite andb_false_r. destruct (first_failure sc body); auto.
-    destruct (find_handler hs e) as [[n|e']|]; reflexivity.
+  - rewrite andb_false_r. destruct (body_raise sc body) as [[e|n]|]; auto.
+    destruct (apply_handlers hs e); reflexivity.
 Qed.
 
 Lemma first_failure_none sc body :
@@ -33,6 +33,18 @@ Lemma first_failure_none sc body :
 Proof.
   induction body as [|s r IH]; intro H; cbn; auto.
   rewrite (H s (or_introl eq_refl)). apply IH. intros x I. apply H. right. exact I.
+Qed.
+
+Lemma body_raise_none sc body :
+  (forall s, In s (body_stages body) -> sc s = None) -> body_raise sc body = None.
+Proof.
+  induction body as [|st r IH]; intro H; cbn; auto.
+  assert (HS : step_raise sc st = None).
+  { destruct st as [s|b hs]; cbn.
+    - rewrite (H s); auto. unfold body_stages. cbn. left. reflexivity.
+    - rewrite first_failure_none; auto. intros x I. apply H. unfold body_stages. cbn.
+      apply in_or_app. left. exact I. }
+  rewrite HS. apply IH. intros x I. apply H. unfold body_stages in *. cbn. apply in_or_app. right. exact I.
 Qed.
 
 Lemma run_items_removed user sc items : forall removed,
@@ -48,12 +60,157 @@ Proof.
       * rewrite (HS s (or_introl eq_refl)). apply IH; auto.
         intros x I. apply HS. right. exact I.
     + destruct fin; cbn in *.
-      * destruct (first_failure sc body).
-        -- destruct (find_handler hs e) as [[n|e']|]; reflexivity.
+      * destruct (body_raise sc body) as [[e|n]|].
+        -- destruct (apply_handlers hs e); reflexivity.
+        -- reflexivity.
         -- apply run_items_removed_mono.
-      * rewrite first_failure_none.
+      * rewrite body_raise_none.
         -- apply IH; auto. intros x I. apply HS. apply in_or_app. right. exact I.
         -- intros x I. apply HS. apply in_or_app. left. exact I.
+Qed.
+
+(* ---- a run is determined by its first failing stage --------------------------------------- *)
+Lemma first_fail_app sc a b :
+  first_fail sc (a ++ b) = match first_fail sc a with Some x => Some x | None => first_fail sc b end.
+Proof. induction a as [|s r IH]; cbn; auto. destruct (sc s); auto. Qed.
+
+Lemma first_failure_of_first_fail sc body :
+  first_failure sc body = option_map snd (first_fail sc body).
+Proof. induction body as [|s r IH]; cbn; auto. destruct (sc s); auto. Qed.
+
+Lemma step_raise_ext sc sc' st :
+  first_fail sc (step_stages st) = first_fail sc' (step_stages st) -> step_raise sc st = step_raise sc' st.
+Proof.
+  destruct st as [s|b hs]; cbn.
+  - destruct (sc s), (sc' s); intro H; inversion H; reflexivity.
+  - rewrite !first_failure_of_first_fail. intro H. rewrite H. reflexivity.
+Qed.
+
+Lemma step_raise_none_iff sc st : step_raise sc st = None <-> first_fail sc (step_stages st) = None.
+Proof.
+  destruct st as [s|b hs]; cbn.
+  - destruct (sc s); split; intro H; try discriminate; reflexivity.
+  - rewrite first_failure_of_first_fail. destruct (first_fail sc b); cbn; split; intro H; try discriminate; reflexivity.
+Qed.
+
+Lemma body_raise_ext sc sc' body :
+  first_fail sc (body_stages body) = first_fail sc' (body_stages body) ->
+  body_raise sc body = body_raise sc' body /\
+  (body_raise sc body = None <-> first_fail sc (body_stages body) = None).
+Proof.
+  induction body as [|st r IH]; cbn. { intros _. split; [reflexivity|tauto]. }
+  unfold body_stages. cbn. fold (body_stages r). rewrite !first_fail_app. intro H.
+  destruct (first_fail sc (step_stages st)) as [x|] eqn:A; destruct (first_fail sc' (step_stages st)) as [y|] eqn:B.
+  - assert (E : step_raise sc st = step_raise sc' st) by (apply step_raise_ext; congruence).
+    rewrite <- E. destruct (step_raise sc st) eqn:S.
+    + split; [reflexivity|]. split; discriminate.
+    + apply step_raise_none_iff in S. congruence.
+  - (* sc fails in st, sc' later with the same (stage, class): impossible to tell apart only if equal *)
+    assert (S' : step_raise sc' st = None) by (apply step_raise_none_iff; exact B).
+    (* H : Some x = first_fail sc' rest.  The stage x fails under sc inside st; under sc' st is clean. *)
+    exfalso.
+    (* x = (s,e) with s in step_stages st and sc' s = None, yet first_fail sc' .. = Some (s,e) gives sc' s = Some e *)
+    destruct x as [s e].
+    assert (I : In s (step_stages st) /\ sc s = Some e).
+    { clear -A. induction (step_stages st) as [|t l IHl]; cbn in A; [discriminate|].
+      destruct (sc t) eqn:T; [inversion A; subst; split; [left; reflexivity|exact T]|].
+      destruct (IHl A) as [I1 I2]. split; [right; exact I1|exact I2]. }
+    assert (N' : sc' s = None).
+    { destruct I as [I _]. clear -B I. induction (step_stages st) as [|t l IHl]; [destruct I|].
+      cbn in B. destruct (sc' t) eqn:T; [discriminate|]. destruct I as [I|I]; [subst; exact T|auto]. }
+    symmetry in H.
+    assert (S2 : sc' s = Some e).
+    { clear -H. induction (body_stages r) as [|t l IHl]; cbn in H; [discriminate|].
+      destruct (sc' t) eqn:T; [inversion H; subst; exact T|auto]. }
+    congruence.
+  - exfalso. destruct y as [s e].
+    assert (I : In s (step_stages st) /\ sc' s = Some e).
+    { clear -B. induction (step_stages st) as [|t l IHl]; cbn in B; [discriminate|].
+      destruct (sc' t) eqn:T; [inversion B; subst; split; [left; reflexivity|exact T]|].
+      destruct (IHl B) as [I1 I2]. split; [right; exact I1|exact I2]. }
+    assert (N' : sc s = None).
+    { destruct I as [I _]. clear -A I. induction (step_stages st) as [|t l IHl]; [destruct I|].
+      cbn in A. destruct (sc t) eqn:T; [discriminate|]. destruct I as [I|I]; [subst; exact T|auto]. }
+    assert (S2 : sc s = Some e).
+    { clear -H. induction (body_stages r) as [|t l IHl]; cbn in H; [discriminate|].
+      destruct (sc t) eqn:T; [inversion H; subst; exact T|auto]. }
+    congruence.
+  - assert (S1 : step_raise sc st = None) by (apply step_raise_none_iff; exact A).
+    assert (S2 : step_raise sc' st = None) by (apply step_raise_none_iff; exact B).
+    rewrite S1, S2. apply IH. exact H.
+Qed.
+
+Lemma first_fail_some sc l s e : first_fail sc l = Some (s, e) -> In s l /\ sc s = Some e.
+Proof.
+  induction l as [|t r IH]; cbn; [discriminate|].
+  destruct (sc t) eqn:T; intro H.
+  - inversion H; subst. split; [left; reflexivity|exact T].
+  - destruct (IH H) as [I1 I2]. split; [right; exact I1|exact I2].
+Qed.
+
+Lemma first_fail_none_in sc l s : first_fail sc l = None -> In s l -> sc s = None.
+Proof.
+  induction l as [|t r IH]; cbn; [intros _ []|].
+  destruct (sc t) eqn:T; [discriminate|]. intros H [I|I]; [subst; exact T|auto].
+Qed.
+
+Lemma first_fail_split sc sc' a b :
+  first_fail sc (a ++ b) = first_fail sc' (a ++ b) ->
+  first_fail sc a = first_fail sc' a /\ (first_fail sc a = None -> first_fail sc b = first_fail sc' b).
+Proof.
+  rewrite !first_fail_app.
+  destruct (first_fail sc a) as [[s e]|] eqn:A; destruct (first_fail sc' a) as [[s' e']|] eqn:B; intro H.
+  - split; [exact H|discriminate].
+  - exfalso. apply first_fail_some in A. destruct A as [I E].
+    pose proof (first_fail_none_in _ _ _ B I) as N'. symmetry in H.
+    apply first_fail_some in H. destruct H as [_ E']. congruence.
+  - exfalso. apply first_fail_some in B. destruct B as [I E].
+    pose proof (first_fail_none_in _ _ _ A I) as N'.
+    apply first_fail_some in H. destruct H as [_ E']. congruence.
+  - split; [reflexivity|intros _; exact H].
+Qed.
+
+Lemma run_items_ext user del sc sc' items : forall removed,
+  first_fail sc (exec_order user items) = first_fail sc' (exec_order user items) ->
+  run_items user del sc items removed = run_items user del sc' items removed.
+Proof.
+  induction items as [|it r IH]; intros removed H; cbn; auto.
+  destruct it as [s ou|body hs fin]; cbn in H.
+  - destruct (ou && negb user); auto.
+    cbn in H. destruct (sc s) eqn:A; destruct (sc' s) eqn:B.
+    + inversion H. reflexivity.
+    + exfalso. symmetry in H. apply first_fail_some in H. destruct H as [_ E]. congruence.
+    + exfalso. apply first_fail_some in H. destruct H as [_ E]. congruence.
+    + apply IH. exact H.
+  - apply first_fail_split in H. destruct H as [H1 H2].
+    destruct (body_raise_ext sc sc' body H1) as [E1 E2].
+    rewrite <- E1. destruct (body_raise sc body) as [x|] eqn:R; [reflexivity|].
+    apply IH. apply H2. apply E2. reflexivity.
+Qed.
+
+Lemma first_fail_single s e l : In s l -> first_fail (script_of [(s, e)]) l = Some (s, e).
+Proof.
+  induction l as [|t r IH]; [intros []|]. intro I. cbn.
+  destruct (stage_eqb s t) eqn:E.
+  - destruct s, t; try discriminate; reflexivity.
+  - destruct I as [I|I]; [rewrite I in E; destruct s; discriminate|auto].
+Qed.
+
+Lemma first_fail_empty l : first_fail (script_of []) l = None.
+Proof. induction l; cbn; auto. Qed.
+
+(* every run equals the run in which only its first failing stage fails *)
+Theorem run_first_failure (f : flow) (user : bool) (sc : script) :
+  run f user sc =
+  match first_fail sc (exec_order user (f_items f)) with
+  | Some (s, e) => run f user (script_of [(s, e)])
+  | None => run f user (script_of [])
+  end.
+Proof.
+  unfold run. destruct (first_fail sc (exec_order user (f_items f))) as [[s e]|] eqn:F.
+  - apply run_items_ext. rewrite F. symmetry. apply first_fail_single.
+    apply first_fail_some in F. tauto.
+  - apply run_items_ext. rewrite F. symmetry. apply first_fail_empty.
 Qed.
 
 (* ---- theorems for an arbitrary flow ------------------------------------------------------ *)
@@ -80,7 +237,8 @@ Proof.
 Qed.
 
 Example given_satisfiable :
-  let f := mkFlow [Try [SInputs; SBuildRepo; SCompile] [(ENoCandidate, AExit 1)] true; Plain SWrite false] false true in
+  let f := mkFlow [Try [SPlain SInputs; STry [SBuildRepo] [(EValueError, AExit 1)]; SPlain SCompile]
+                       [(ENoCandidate, AExit 1)] true; Plain SWrite false] false true in
   f_del_tmp f = true /\ has_fin (f_items f) = true /\ stages_before_fin false (f_items f) = [].
 Proof. cbn. auto. Qed.
 
@@ -95,95 +253,113 @@ Proof. reflexivity. Qed.
 Lemma cli_compile_protected : mem_stage SCompile (protected (f_items cli_flow)) = true.
 Proof. reflexivity. Qed.
 
-(* the stage calls that run before the try on the unchanged tree: a failure of any of them
-   leaves the temporary directory behind *)
-Lemma cli_unprotected_stages :
-  stages_before_fin false (f_items cli_flow) = [SInputs; SExtraParams; SConstraints; SBuildRepo].
+(* since 0267ed8: no stage call runs before the try whose finally removes the directory *)
+Lemma cli_no_unprotected_stage : stages_before_fin false (f_items cli_flow) = [].
 Proof. reflexivity. Qed.
 
 Theorem cli_user_dir_never_deleted (sc : script) : o_removed (run_cli true sc) = false.
 Proof. apply user_dir_never_deleted_given. apply cli_flags. Qed.
 
-Definition cli_tmp_removed_full_statement : Prop :=
-  forall sc : script, o_removed (run_cli false sc) = true.
-
-(* proved part: every exit at or after perform_compile (success, no candidate, bad metadata,
-   repository initialisation error, any other exception) removes the temporary directory.
-   Missing for the full statement: exits caused by _create_input_reqs (inputs, constraints),
-   the extra-parameter parser and build_repo, which run before the try. *)
-Theorem cli_tmp_removed_all_exits_partial (sc : script) :
-  sc SInputs = None -> sc SExtraParams = None -> sc SConstraints = None -> sc SBuildRepo = None ->
-  o_removed (run_cli false sc) = true.
+(* FULL statement: the temporary wheel directory is gone after every way a run can end *)
+Theorem cli_tmp_removed_all_exits (sc : script) : o_removed (run_cli false sc) = true.
 Proof.
-  intros H1 H2 H3 H4. apply tmp_removed_partial_gen.
-  - apply cli_flags. - apply cli_has_fin.
-  - rewrite cli_unprotected_stages. intros s [E|[E|[E|[E|[]]]]]; subst; assumption.
+  apply tmp_removed_all_exits_given.
+  - apply cli_flags. - apply cli_has_fin. - apply cli_no_unprotected_stage.
 Qed.
-
-Example cli_partial_nontrivial :
-  let sc := script_of [(SCompile, ENoCandidate)] in
-  sc SInputs = None /\ sc SExtraParams = None /\ sc SConstraints = None /\ sc SBuildRepo = None /\
-  run_cli false sc = mkOut (Exit 1) true.
-Proof. vm_compute. repeat split. Qed.
 
 (* exits of the command line named by the property: the exit status and the directory *)
 Theorem cli_exits_table :
-  (* success *)
   run_cli false (script_of []) = mkOut Done true /\
-  (* no candidate / bad metadata / unusable repository detected during the compile *)
   run_cli false (script_of [(SCompile, ENoCandidate)]) = mkOut (Exit 1) true /\
   run_cli false (script_of [(SCompile, EMetadata)]) = mkOut (Exit 1) true /\
   run_cli false (script_of [(SCompile, ERepoInit)]) = mkOut (Exit 1) true /\
   run_cli false (script_of [(SCompile, EOther)]) = mkOut (Uncaught EOther) true /\
-  (* bad input argument; unusable repository detected by build_repo: directory left behind *)
-  run_cli false (script_of [(SInputs, EValueError)]) = mkOut (Exit 1) false /\
-  run_cli false (script_of [(SConstraints, EValueError)]) = mkOut (Uncaught EValueError) false /\
-  run_cli false (script_of [(SExtraParams, ESystemExit)]) = mkOut (Uncaught ESystemExit) false /\
-  run_cli false (script_of [(SBuildRepo, EValueError)]) = mkOut (Uncaught EValueError) false /\
-  run_cli false (script_of [(SBuildRepo, ERepoInit)]) = mkOut (Uncaught ERepoInit) false.
+  run_cli false (script_of [(SInputs, EValueError)]) = mkOut (Exit 1) true /\
+  run_cli false (script_of [(SConstraints, EValueError)]) = mkOut (Uncaught EValueError) true /\
+  run_cli false (script_of [(SExtraParams, ESystemExit)]) = mkOut (Uncaught ESystemExit) true /\
+  run_cli false (script_of [(SBuildRepo, EValueError)]) = mkOut (Exit 1) true /\
+  run_cli false (script_of [(SBuildRepo, ERepoInit)]) = mkOut (Exit 1) true.
 Proof. vm_compute. repeat split. Qed.
 
-Theorem cli_tmp_left_behind_refuted : ~ cli_tmp_removed_full_statement.
+(* ---- every failure a handler covers ends in a diagnostic and exit status 1 (C09's demand on
+   the command line), from the generated handler table ---------------------------------------- *)
+Theorem cli_covered_failures_exit_1 (user : bool) (sc : script) (s : stage) (e : ecls) :
+  first_fail sc (exec_order user (f_items cli_flow)) = Some (s, e) ->
+  cli_diagnosed user s e = true ->
+  o_end (run_cli user sc) = Exit 1.
+Proof.
+  intros F D. unfold run_cli. rewrite run_first_failure, F.
+  unfold cli_diagnosed, run_cli in D.
+  destruct (o_end (run cli_flow user (script_of [(s, e)]))) as [|n|x]; cbn in D; try discriminate.
+  apply N.eqb_eq in D. subst. reflexivity.
+Qed.
+
+(* which failures of the classes the code knows (ValueError, RepositoryInitializationError,
+   NoCandidateException, MetadataError) are NOT turned into a diagnostic: a plain ValueError of
+   the extra-parameter stage (-e path), of --constraints and of perform_compile itself, and everything after the try
+   (setup-requires downloads with --wheel-dir, writing) *)
+Theorem cli_traceback_pairs_table :
+  cli_traceback_pairs false =
+    [(SExtraParams, EValueError); (SConstraints, EValueError); (SCompile, EValueError);
+     (SWrite, EValueError); (SWrite, ERepoInit); (SWrite, ENoCandidate); (SWrite, EMetadata)] /\
+  cli_traceback_pairs true =
+    [(SExtraParams, EValueError); (SConstraints, EValueError); (SCompile, EValueError);
+     (SSetupReqs, EValueError); (SSetupReqs, ERepoInit); (SSetupReqs, ENoCandidate); (SSetupReqs, EMetadata);
+     (SWrite, EValueError); (SWrite, ERepoInit); (SWrite, ENoCandidate); (SWrite, EMetadata)].
+Proof. vm_compute. split; reflexivity. Qed.
+
+(* in particular: an unusable repository argument (build_repo raising ValueError or
+   RepositoryInitializationError) and a bad input argument are diagnostics *)
+Theorem cli_unusable_repository_is_diagnostic (user : bool) (sc : script) (e : ecls) :
+  sc SInputs = None -> sc SExtraParams = None -> sc SConstraints = None ->
+  sc SBuildRepo = Some e -> (e = EValueError \/ e = ERepoInit) ->
+  o_end (run_cli user sc) = Exit 1.
+Proof.
+  intros H1 H2 H3 H4 HE.
+  apply (cli_covered_failures_exit_1 user sc SBuildRepo e).
+  - destruct user; cbn; rewrite H1, H2, H3, H4; reflexivity.
+  - destruct HE; subst; destruct user; reflexivity.
+Qed.
+
+Example cli_covered_nontrivial :
+  let sc := script_of [(SBuildRepo, EValueError); (SCompile, ENoCandidate)] in
+  first_fail sc (exec_order false (f_items cli_flow)) = Some (SBuildRepo, EValueError) /\
+  cli_diagnosed false SBuildRepo EValueError = true.
+Proof. vm_compute. split; reflexivity. Qed.
+
+(* ---- the Bazel front end (private/compiler.py compile_requirements) ----------------------- *)
+(* since 8cae042 the finally removes the directory exactly when it was made by mkdtemp *)
+Lemma bzl_flags : f_del_user bzl_flow = false /\ f_del_tmp bzl_flow = true.
+Proof. split; reflexivity. Qed.
+
+Theorem bzl_user_dir_never_deleted (sc : script) : o_removed (run_bzl true sc) = false.
+Proof. apply user_dir_never_deleted_given. apply bzl_flags. Qed.
+
+Lemma bzl_unprotected_stages : stages_before_fin false (f_items bzl_flow) = [SBuildRepo].
+Proof. reflexivity. Qed.
+
+Definition bzl_tmp_removed_full_statement : Prop :=
+  forall sc : script, o_removed (run_bzl false sc) = true.
+
+(* proved part: every exit at or after perform_compile.  Missing: build_repo still runs
+   before the try in compile_requirements *)
+Theorem bzl_tmp_removed_all_exits_partial (sc : script) :
+  sc SBuildRepo = None -> o_removed (run_bzl false sc) = true.
+Proof.
+  intro H. apply tmp_removed_partial_gen.
+  - apply bzl_flags. - reflexivity.
+  - rewrite bzl_unprotected_stages. intros s [E|[]]. subst. exact H.
+Qed.
+
+Theorem bzl_tmp_left_behind_refuted : ~ bzl_tmp_removed_full_statement.
 Proof.
   intro H. specialize (H (script_of [(SBuildRepo, EValueError)])). vm_compute in H. discriminate.
 Qed.
 
-(* ---- the Bazel front end (private/compiler.py compile_requirements) ----------------------- *)
-(* the guard of the finally is inverted there: external_wheeldir is True for a directory the
-   caller supplied and False for the one made by mkdtemp *)
-Lemma bzl_flags : f_del_user bzl_flow = true /\ f_del_tmp bzl_flow = false.
-Proof. split; reflexivity. Qed.
-
-Definition bzl_tmp_removed_full_statement : Prop :=
-  forall sc : script, o_removed (run_bzl false sc) = true.
-Definition bzl_user_dir_never_deleted_full_statement : Prop :=
-  forall sc : script, o_removed (run_bzl true sc) = false.
-
-(* the temporary directory is left behind on EVERY exit, success included *)
-Theorem bzl_tmp_never_removed (sc : script) : o_removed (run_bzl false sc) = false.
-Proof. unfold run_bzl, run. rewrite (proj2 bzl_flags). apply run_items_no_delete. Qed.
-
-Theorem bzl_tmp_removed_refuted : ~ bzl_tmp_removed_full_statement.
-Proof. intro H. specialize (H (script_of [])). rewrite bzl_tmp_never_removed in H. discriminate. Qed.
-
-(* a directory handed in by the caller is deleted as soon as build_repo returns *)
-Theorem bzl_user_dir_deleted (sc : script) :
-  sc SBuildRepo = None -> o_removed (run_bzl true sc) = true.
-Proof.
-  intro H. unfold run_bzl, run. rewrite (proj1 bzl_flags).
-  apply run_items_removed; [left; reflexivity|].
-  intros s I. vm_compute in I. destruct I as [E|[]]. subst. exact H.
-Qed.
-
-Theorem bzl_user_dir_deleted_refuted : ~ bzl_user_dir_never_deleted_full_statement.
-Proof.
-  intro H. specialize (H (script_of [])). rewrite bzl_user_dir_deleted in H; [discriminate|reflexivity].
-Qed.
-
 Theorem bzl_exits_table :
-  run_bzl false (script_of []) = mkOut Done false /\
-  run_bzl false (script_of [(SCompile, ENoCandidate)]) = mkOut (Uncaught ECompilation) false /\
+  run_bzl false (script_of []) = mkOut Done true /\
+  run_bzl false (script_of [(SCompile, ENoCandidate)]) = mkOut (Uncaught ECompilation) true /\
   run_bzl false (script_of [(SBuildRepo, EValueError)]) = mkOut (Uncaught EValueError) false /\
-  run_bzl true (script_of []) = mkOut Done true /\
-  run_bzl true (script_of [(SCompile, ENoCandidate)]) = mkOut (Uncaught ECompilation) true.
+  run_bzl true (script_of []) = mkOut Done false /\
+  run_bzl true (script_of [(SCompile, ENoCandidate)]) = mkOut (Uncaught ECompilation) false.
 Proof. vm_compute. repeat split. Qed.
